@@ -117,6 +117,18 @@ PROPS = {
                 "point's event from outside while the exit point is not active",
         "assumptions": CORE_ASSUME + ["back11: machines with exit points are skipped (the library does not compile them)"],
     },
+    "C13": {
+        "profile": "common", "n_quick": 6, "n_thorough": 50, "nops": 18, "nlists": 3, "cfgs": SIX,
+        "monitor": None, "cross_cfg": M.proj_C13,
+        "relevant": M.relevant_by(M.proj(M.ALL, keep_res=True, keep_snap=True, keep_ev=True)),
+        "rule": "machines inside the common feature subset (no machine-level internal tables, no Kleene / base-class triggers, "
+                "deferral and blocking states only in the root, completion rows from simple states in one region with guards "
+                "fixed for the whole run, flags queried with OR, history per submachine); the SAME definition and operation list "
+                "run under all six configurations and the implementations' behaviour (behaviour invocations with order and "
+                "arguments, active ids after every operation, handled / zero status) is compared pairwise, in addition to the "
+                "comparison of each configuration with its own model instance",
+        "assumptions": ["common feature subset as listed in the property's quantifier"],
+    },
     "C14": {
         "profile": None, "n_quick": 1500, "n_thorough": 40000, "cfgs": ["puml"],
         "custom": "puml",
@@ -128,6 +140,29 @@ PROPS = {
                 "at run time and compared (a) with the fields the grammar defines and (b) with the Coq transcription; a separate "
                 "malformed stream is compared with the transcription only; distinct = distinct line texts",
         "assumptions": ["lines shorter than 2^64 characters", "the type-level part (parse_guard, create_transition_table) is not modelled"],
+    },
+    "C15": {
+        "profile": "copy", "n_quick": 5, "n_thorough": 40, "nops": 22, "nlists": 3, "cfgs": SIX,
+        "ops": lambda g, md, n: g.gen_ops_copy(md, n, mode="move" if g.rng.random() < 0.5 else "copy"),
+        "ops_cfg": True,
+        "monitor": M.mon_C15,
+        "relevant": M.relevant_by(M.proj(M.ALL, keep_res=True, keep_snap=True, keep_ev=True)),
+        "rule": "nested machines (history, deferral, completion, exit points); object 0 is driven, copied / assigned (and "
+                "for backmp11 moved) into further objects at quiescent points - also with events pending - and all objects are "
+                "then driven with different continuations; every object's reported configuration is printed after every "
+                "operation; for back / back11 copies made while events are pending are discarded (known finding F10)",
+        "assumptions": ["copy from a const reference", "back/back11: copy with empty queues (F10)"],
+    },
+    "C16": {
+        "profile": "copy", "n_quick": 5, "n_thorough": 40, "nops": 20, "nlists": 3, "cfgs": ["back", "back_fct", "back11"],
+        "ops": lambda g, md, n: g.gen_ops_copy(md, n, mode="saveload", pending=False),
+        "extra_flags": ("-DH_SERIALIZE",),
+        "monitor": M.mon_C15,
+        "relevant": M.relevant_by(M.proj(M.ALL, keep_res=True, keep_snap=True, keep_ev=True)),
+        "rule": "same machines as C15 under back / back11: at quiescent points with empty queues the machine is saved to a text "
+                "archive and loaded into a freshly constructed object (the binary archive is loaded into a scratch object and "
+                "its configuration compared), then original and loaded object are driven with different continuations",
+        "assumptions": ["queues are empty at the save point (they are not serialized)"],
     },
     "C17": {
         "profile": "flags", "n_quick": 5, "n_thorough": 40, "nops": 16, "nlists": 3, "cfgs": SIX,
@@ -184,16 +219,16 @@ def prebuild():
             for c in spec["cfgs"]:
                 md2 = msmgen.adapt(md, c)
                 if md2 is not None:
-                    jobs[(name, c)] = (md2, c)
+                    jobs[(name, c, tuple(spec.get("extra_flags", ())))] = (md2, c, tuple(spec.get("extra_flags", ())))
         for nm in spec.get("corpus", []):
             import json as _json
             d = _json.load(open(os.path.join(checklib.VERIF, "corpus", nm + ".json")))
             for c in d.get("cfgs", spec["cfgs"]):
                 md2 = msmgen.adapt(d["md"], c)
                 if md2 is not None:
-                    jobs[(nm, c)] = (md2, c)
+                    jobs[(nm, c, tuple(spec.get("extra_flags", ())))] = (md2, c, tuple(spec.get("extra_flags", ())))
     with ThreadPoolExecutor(14) as ex:
-        res = list(ex.map(lambda j: corr.build_binary(j[0], j[1]), jobs.values()))
+        res = list(ex.map(lambda j: corr.build_binary(j[0], j[1], extra_flags=j[2]), jobs.values()))
     bad = [r for r in res if r[0] is None]
     print("prebuilt %d harness binaries (%d failed)" % (len(res) - len(bad), len(bad)))
     return 0
